@@ -206,6 +206,13 @@ impl World {
             let hw = if cfg.ethernet { Hw::Eth(macs[i]) } else { Hw::Ip };
             let seed = seed_for_first_isn(s.isn, s.stream_seed);
             let mut n = Node::new(hw, s.mtu, seed, false, us(0));
+            // one poll may legitimately flush the whole transmit buffer in minimum-size
+            // segments (no congestion control, large peer window, tiny MTU): the cap that
+            // stands for "the egress loop does not terminate" must lie well above that
+            let l2 = if cfg.ethernet { 14 } else { 0 };
+            let hdrs = l2 + if cfg.v6 { 40 } else { 20 } + 20 + 12;
+            let seg_floor = cfg.sides.iter().map(|x| x.mtu.saturating_sub(hdrs)).min().unwrap_or(1).max(1);
+            n.dev.hard_cap = 4096 + 4 * (s.tx_buf / seg_floor + 1);
             n.add_addr(IpCidr::new(addrs[i].to_smol(), if cfg.v6 { 64 } else { 24 }));
             let mut sock = tcp::Socket::new(tcp::SocketBuffer::new(vec![0u8; s.rx_buf]), tcp::SocketBuffer::new(vec![0u8; s.tx_buf]));
             sock.set_congestion_control(match s.cc {
